@@ -44,11 +44,41 @@ def lattice_case(i):
 def gen_case(rng, cfg, idx):
     if idx < len(LATTICE):
         return lattice_case(idx)
+    if idx % 4 == 3:
+        # in-place histories (C04's generator, with explicit constant= on views): an in-place target keeps its own flag
+        from mgverif.gen.inplace import gen_history
+        b, base, n_inplace = gen_history(rng, nstmts=(3, 10), const_kw_prob=0.25, setshape_w=0.2)
+        return {"prog": b.prog, "hist": True}
     for _ in range(20):
         c = gen_dag(rng, nodes=cfg["nodes"], seed_kinds=False)
         if c is None:
             continue
         prog = c["prog"]
+        if rng.random() < 0.35:
+            # a constant operand sharing its MEMORY with a non-constant leaf (astensor(x, constant=True), Tensor(x, copy=False,
+            # constant=True) or the raw x.data) used next to that leaf: the constant must still neither receive nor transmit gradient
+            fl = [st for st in prog if st["k"] == "leaf" and st.get("kind") == "tensor" and st.get("constant") is not True and len(st["shape"]) >= 1]
+            if fl:
+                x = rng.choice(fl)["out"]
+                how = rng.choice(["astensor", "Tensor", "data"])
+                nd = len(next(st for st in prog if st.get("out") == x)["shape"])
+                lbl = "ijk"[:nd]
+                pos = max(i for i, st in enumerate(prog) if st["k"] == "leaf") + 1
+                extra = [{"k": "constof", "out": "calias", "src": x, "how": how}]
+                r = rng.random()
+                if r < 0.5:
+                    extra.append({"k": "call", "out": "ealias", "fn": "einsum", "a": [f"{lbl},{lbl}->" + rng.choice(["", lbl[:1], lbl]), ["r", x], ["r", "calias"]][:3] if rng.random() < 0.5
+                                  else [f"{lbl},{lbl}->" + rng.choice(["", lbl]), ["r", "calias"], ["r", x]], "sp": "mg"})
+                else:
+                    extra.append({"k": "call", "out": "ealias", "fn": rng.choice(["multiply", "add", "maximum", "add_sequence", "multiply_sequence"]),
+                                  "a": [["r", x], ["r", "calias"]] if rng.random() < 0.5 else [["r", "calias"], ["r", x]], "sp": "mg"})
+                extra.append({"k": "call", "out": "salias", "fn": "sum", "a": [["r", "ealias"]], "sp": "mg"})
+                bw = prog[-1]
+                body = prog[:pos] + extra + prog[pos:-1]
+                body.append({"k": "call", "out": "Lalias", "fn": "add", "a": [["r", "salias"], ["r", "__Lsum"]], "sp": "mg"})
+                prog = body[:-1] + [{"k": "call", "out": "__Lsum", "fn": "sum", "a": [["r", c["L"]]], "sp": "mg"}, body[-1],
+                                    {"k": "backward", "tgt": "Lalias", "seed": None}]
+                c = dict(c, L="Lalias")
         for st in prog:
             if st["k"] == "leaf" and st.get("kind") == "tensor":
                 r = rng.random()
@@ -81,6 +111,9 @@ def model_flags(prog, it_types, raised):
             else:
                 must_raise[i] = False
                 flags[st["out"]] = False if c is None else c
+        elif st["k"] == "constof":
+            if st["how"] != "data":
+                flags[st["out"]] = True
         elif st["k"] == "call":
             refs = mgrun.stmt_refs(st)
             if any(r not in it_types for r in refs):
@@ -120,7 +153,34 @@ def run_prog(prog):
     return it, types
 
 
+def run_hist(case):
+    prog = case["prog"]
+    REG.reset()
+    it = Interp("mg")
+    flags, cnt, viol = {}, {"flag_checks": 0, "hist_inplace_stmts": 0}, []
+    for i, st in enumerate(prog):
+        try:
+            it.exec(i, st)
+        except Exception as e:
+            return {"viol": [], "skip": f"history statement raised {type(e).__name__} (C04 judges)", "counters": cnt}
+        if st["k"] in ("setitem", "aug", "uout", "setshape"):
+            cnt["hist_inplace_stmts"] += 1
+        for n, v in it.env.items():
+            if not mgrun.is_tensor(v):
+                continue
+            cnt["flag_checks"] += 1
+            if n not in flags:
+                flags[n] = v.constant
+            elif flags[n] != v.constant:
+                viol.append({"monitor": "flags", "mech": "inplace-changes-constant-flag",
+                             "msg": f"{n}.constant changed {flags[n]} -> {v.constant} at statement {i} ({st['k']} {st.get('fn', st.get('op', ''))} on {st.get('tgt')})"})
+                return {"viol": viol, "counters": cnt, "sets": {"kinds": ["hist"]}, "sig": "hist:" + mgrun.struct_sig(prog)}
+    return {"viol": viol, "counters": cnt, "sets": {"kinds": ["hist"]}, "sig": "hist:" + mgrun.struct_sig(prog), "nontrivial": cnt["hist_inplace_stmts"] >= 1}
+
+
 def run_case(case):
+    if case.get("hist"):
+        return run_hist(case)
     prog = case["prog"]
     cnt, viol, sets = {"flag_checks": 0}, [], {}
     it, types = run_prog(prog)
@@ -183,6 +243,12 @@ def run_case(case):
             st["kind"] = "array"
             st["compact"] = not st.get("nocopy")
             st.pop("constant", None)
+            replaced.add(st["out"])
+    for j, st in enumerate(p2):
+        if st["k"] == "constof" and st["out"] in it.env:
+            v = it.env[st["out"]]
+            a = np.array(v.data if mgrun.is_tensor(v) else v)
+            p2[j] = {"k": "leaf", "out": st["out"], "kind": "array", "dtype": a.dtype.name, "shape": list(a.shape), "data": a.ravel().tolist(), "layout": "C"}
             replaced.add(st["out"])
     if replaced:
         vt = {}   # is the name bound to a Tensor in the variant program?
